@@ -489,12 +489,12 @@ func c03cli(ev *evidence.Run, tier string) {
 	}
 	ws := filepath.Join(harness.WorkDir(), "c03ws")
 	writeTree(ws, map[string]string{
-		"go.mod":   "module w\n\ngo 1.21\n",
-		"a/a.go":   strings.Replace(c03Extra1, "package extra1", "package a", 1),
-		"a/a2.go":  "package a\n\nfunc h(xs []int, s string) []int {\n\tys := append(xs, 1)\n\ts = s + \"x\"\n\t_ = s\n\treturn ys\n}\n",
-		"b/b.go":   strings.Replace(c03Extra2, "package extra2", "package b", 1),
-		"b/b2.go":  "package b\n\nfunc k(x int) bool {\n\tif x == 1 {\n\t\treturn true\n\t} else {\n\t\tif x == 2 {\n\t\t\treturn false\n\t\t}\n\t}\n\treturn x >= 0 && x >= 0\n}\n",
-		"c/c.go":   "package c\n\nimport \"strings\"\n\ntype later struct{}\n\nfunc (later) M() {}\n\nfunc z(s string) bool { return strings.Index(s, \"a\") != -1 }\n",
+		"go.mod":  "module w\n\ngo 1.21\n",
+		"a/a.go":  strings.Replace(c03Extra1, "package extra1", "package a", 1),
+		"a/a2.go": "package a\n\nfunc h(xs []int, s string) []int {\n\tys := append(xs, 1)\n\ts = s + \"x\"\n\t_ = s\n\treturn ys\n}\n",
+		"b/b.go":  strings.Replace(c03Extra2, "package extra2", "package b", 1),
+		"b/b2.go": "package b\n\nfunc k(x int) bool {\n\tif x == 1 {\n\t\treturn true\n\t} else {\n\t\tif x == 2 {\n\t\t\treturn false\n\t\t}\n\t}\n\treturn x >= 0 && x >= 0\n}\n",
+		"c/c.go":  "package c\n\nimport \"strings\"\n\ntype later struct{}\n\nfunc (later) M() {}\n\nfunc z(s string) bool { return strings.Index(s, \"a\") != -1 }\n",
 	})
 	pkgs := []string{"./a", "./b", "./c"}
 	run := func(args []string, conc string) (map[string][]string, string) {
